@@ -3,6 +3,7 @@
 From Coq Require Export List ZArith Bool String Ascii Lia.
 Export ListNotations.
 Open Scope string_scope.
+Open Scope list_scope.
 Open Scope Z_scope.
 
 (* ---------- time ---------- *)
